@@ -69,3 +69,7 @@ Lemma C16_compile_error_proof : forall pat,
   (compile_route pat = Err EValue <-> (2 <= nwild (parse_pattern pat))%nat) /\
   ((exists r, compile_route pat = Ok r) \/ compile_route pat = Err EValue).
 Proof. intro pat. split; [apply compile_route_error | apply compile_route_total]. Qed.
+
+Lemma C16_spec_rules_proof : forall ps segs vals,
+  wf_pieces ps = true -> (spec ps segs = Some vals <-> matches ps segs vals).
+Proof. intros ps segs vals H. split; [apply spec_matches; exact H | apply matches_spec]. Qed.
